@@ -16,7 +16,7 @@
 (* by the property it belongs to; a check looks at its own property only.   *)
 (* Acceptance of the run = all lines consumed (i = Len(Trace) + 1).         *)
 (***************************************************************************)
-EXTENDS Integers, Sequences, SequencesExt, TLC, Json, IOUtils, SFNum, SFEvents, SFCbor, SFUbjson, SFJson, SFGoType, SFVisitors
+EXTENDS Integers, Sequences, SequencesExt, TLC, Json, IOUtils, SFNum, SFEvents, SFCbor, SFUbjson, SFJson, SFGoType, SFVisitors, ImplCborParser
 
 Trace == ndJsonDeserialize(IOEnv.TRACE_FILE)
 
@@ -82,6 +82,40 @@ IsNonFinEv(e) ==
   \/ e.k \in {"xarr", "xobj"} /\ e.ty = "f32" /\ \E j \in 1..Len(e.e) : IsNonFinite32(e.e[j].v)
 HasNonFin(evs) == \E j \in 1..Len(evs) : IsNonFinEv(evs[j])
 
+\* ---- implementation-shaped parser model, call by call (ImplCborParser) ---------------
+(* A recorded Write history of the cborl parser is replayed through the     *)
+(* code-shaped machine: after EVERY Write the model predicts the events     *)
+(* delivered during that call, whether the call fails, and the depth triple *)
+(* (len(state.stack), len(length.stack), len(buffer)) the real parser        *)
+(* reports through VerifDepths; the final VerifFinalize must agree with      *)
+(* IcFinalizeClean.  A mismatch is reported as MODEL: drift - it never gates *)
+(* a property by itself (a refactoring of the parser's internals that keeps  *)
+(* the properties must not alarm), but the property-level reasons of the     *)
+(* same case say whether behaviour changed too.                              *)
+IcEvSame(m, o) ==
+  /\ m.k = o.k /\ m.v = o.v
+  /\ (m.k \in {"arrS", "objS"} => m.len = o.len /\ m.bt = o.bt)
+  /\ (m.k = "int" => m.ty = o.ty)
+IcEvsSame(m, o) == Len(m) = Len(o) /\ \A j \in 1..Len(m) : IcEvSame(m[j], o[j])
+ImplStep(st, call) ==
+  IF st.stop THEN st
+  ELSE IF call.op = "write" THEN
+     LET chunk == SubSeq(st.doc, st.off + 1, st.off + call.n)
+         q == IcWrite([st.p EXCEPT !.ev = <<>>], chunk)
+         bad == (IF (q.err = "nil") # (call.err = "nil") THEN <<"MODEL:cborl Write fails/succeeds differently from ImplCborParser">> ELSE <<>>)
+                \o (IF ~IcEvsSame(q.ev, call.ev) THEN <<"MODEL:cborl Write delivers different events than ImplCborParser">> ELSE <<>>)
+                \o (IF q.err = "nil" /\ call.err = "nil" /\ call.dep # IcDepths(q)
+                    THEN <<"MODEL:cborl parser stack depths differ from ImplCborParser">> ELSE <<>>) IN
+     [st EXCEPT !.p = q, !.off = st.off + call.n, !.why = st.why \o bad, !.stop = (bad # <<>> \/ q.err # "nil"), !.n = st.n + 1]
+  ELSE IF call.op = "end" THEN
+     [st EXCEPT !.why = st.why \o (IF IcFinalizeClean(st.p) # (call.err = "nil")
+                                   THEN <<"MODEL:cborl finalize differs from ImplCborParser">> ELSE <<>>), !.stop = TRUE]
+  ELSE [st EXCEPT !.stop = TRUE]
+ImplApplies(c) == c.fmt = "cborl" /\ c.entry = "write" /\ c.fault = 0 /\ c.outcome = "ok" /\ ~c.evcap
+ImplDrift(c) ==
+  IF ~ImplApplies(c) THEN <<>>
+  ELSE FoldLeft(ImplStep, [p |-> IcInit, doc |-> c.doc, off |-> 0, why |-> <<>>, stop |-> FALSE, n |-> 0], c.calls).why
+
 \* ---- kind "parse" ------------------------------------------------------------
 AllocBound(c) == 65536 + 64 * Len(c.doc)
 \* UBJSON elements of type Z, T, F have no payload: up to 64 events per
@@ -110,6 +144,7 @@ ParseVerdict(c) ==
       P == ConfProp(c.fmt)
       cr == CRun(out) IN
   (IF r.class = "infra" THEN <<"INFRA:" \o r.why>> ELSE <<>>)
+  \o ImplDrift(c)
   \o (IF c.outcome # "ok" /\ ~(c.outcome = "hang" /\ r.class = "grey" /\ r.why = "many zero-byte elements")
       THEN <<"C03:outcome:" \o c.outcome>> ELSE <<>>)
   \* a visitor may keep the strings it is handed by value; the value of the document is what it holds when the call returns
